@@ -432,7 +432,7 @@ def gen_op(rng: Rng, cfg, kind: str) -> dict:
     if kind == 'share_copy':
         return {'op': 'share_copy', 'sel': s()}
     if kind == 'orthonormalize':
-        return {'op': 'orthonormalize', 'sel': s(), 'mode': rng.pick(['left', 'right']),
+        return {'op': 'orthonormalize', 'sel': s(), 'mode': rng.pick(['left', 'right']), 'extreme': rng.chance(0.06),
                 'kind': rng.wpick([('mps', 3), ('mpo', 1)]) if profile not in ('C08', 'C09', 'C10') else 'mps'}
     if kind == 'compress':
         tol = rng.pick(DYADIC_TOLS)
@@ -462,7 +462,7 @@ def gen_op(rng: Rng, cfg, kind: str) -> dict:
                 'magnitude': rng.wpick([('normal', 6), ('tiny', 1), ('huge', 1)]),
                 'tol': rng.pick(DYADIC_TOLS) if rng.chance(0.5) else 0.0}
     if kind == 'tdvp':
-        return {'op': 'tdvp', 'H': s(), 'psi': s(), 'sites': rng.pick([1, 1, 2]), 'dt': _dt(rng, profile, cfg.get('complete')),
+        return {'op': 'tdvp', 'H': s(), 'psi': s(), 'sites': rng.pick([1, 1, 2]), 'dt': _dt(rng, profile, cfg.get('complete')), 'extreme': rng.chance(0.05),
                 'n': rng.pick([1, 1, 2, 3]), 'numiter': rng.pick(NUMITERS_TDVP) if profile != 'C09' else rng.pick([12, 16, 25, 40]),
                 'tol_split': 0.0 if ((profile in ('C08', 'C09') and rng.chance(0.85)) or rng.chance(0.6)) else rng.pick([1e-10, 1e-7, 1e-6, 1e-3, 0.0625])}
     if kind == 'tdvp_reverse':
